@@ -2,7 +2,8 @@
 
 Functions under contract (real bodies from cal.py, every run): Component.property_items (recursive),
 Calendar.get_used_tzids, Calendar.get_missing_tzids, Calendar.timezones, Timezone.tz_name (shape), Timezone.from_tzid (shape of
-the TZID it sets); Calendar.add_missing_timezones is exercised by the bounded stand-in (provider behaviour is external).
+the TZID it sets), Calendar.add_missing_timezones (one from_tzid(t) appended per missing id the provider knows, nothing for the
+others, raises nothing); what the provider knows is external and exercised by the bounded stand-in.
 
 Recursive contract of property_items (induction over the height of the component tree, symbolic numbers of keys, of list
 entries per key and of subcomponents):
